@@ -46,6 +46,7 @@ SEMANTIC = {
 }
 LEXICAL = {
     "bad-suffix": "lda.q 5",
+    "empty-suffix": "lda.",                            # the line ends after the dot
     "bad-index": "lda 5,q",
     "missing-index": "lda 5,",                         # the line ends after the comma
     "missing-inner-index": "lda (5,",
@@ -238,7 +239,7 @@ def check_one(out, case, sub):
         else:
             col = int(mc.group(1))
             ind = actual_line.index(stmt_text)
-            if fault == "bad-suffix":
+            if fault in ("bad-suffix", "empty-suffix"):
                 allowed = {ind + 3, ind + 4}
             elif fault == "bad-index":
                 allowed = {ind + 5, ind + 6}
